@@ -596,8 +596,10 @@ def run_batch(batch, rep):
         kind, data, cuts, chunk, declared = cfg[:5]
         mode = cfg[5] if len(cfg) > 5 else None
         delims = D3_DELIMS if mode == 'd3' else [d for d in alld if len(d) <= chunk]
-        h = ReaderHarness(kind, data, cuts, chunk, declared, delims, rep,
-                          nested=1 if mode == 'd3' else nested, mode=mode)
+        # second-level delimit() multiplies the async state graphs by ~5 (measured: 1.6e4 of 2.1e4 CPU seconds of the
+        # thorough tier): it is explored for every sync configuration and for async data of <= 2 bytes
+        deep = nested if not (mode == 'd3' or (kind == 'async' and len(data) >= 3)) else 1
+        h = ReaderHarness(kind, data, cuts, chunk, declared, delims, rep, nested=deep, mode=mode)
         before = rep.c['states']
         if rep.c['hangs'] >= 3:
             rep.cap('worker batch abandoned after 3 non-terminating operations')
@@ -616,7 +618,7 @@ def check(rep):
     nested = 1 if rep.tier == 'quick' else 2
     rep.bounds = {'sync_max_len': '2 over 4 symbols, 3 over {a,b,LF}' if rep.tier == 'quick' else '3 over 4 symbols, 4 over {a,b,LF}, 5 over {a,LF}',
                   'async_max_len': '2 over 4 symbols + 3 over 3' if rep.tier == 'quick' else '3 over 4 symbols, 4 over {a,b,LF}',
-                  'configs': len(cfgs), 'chunk_sizes': [1, 2, 3], 'three_byte_delimiters': 'data <=%d over {a,b}, chunk sizes 3 and 4, delimiters aba/abb, 15-operation alphabet' % 7, 'delimiters': alld, 'sync_cuts<=': 2, 'nesting': nested,
+                  'configs': len(cfgs), 'chunk_sizes': [1, 2, 3], 'three_byte_delimiters': 'data <=%d over {a,b}, chunk sizes 3 and 4, delimiters aba/abb, 15-operation alphabet' % 7, 'delimiters': alld, 'sync_cuts<=': 2, 'nesting': nested if nested == 1 else '2 (sync; async for data <= 2 bytes), else 1',
                   'history_length': 'unbounded (closure of the reachable state graph per configuration)'}
     rep.rule = ('one BFS to closure per configuration (data x source chunking x chunk_size x declared length); '
                 'a state is the complete attribute/generator-frame state of the real reader(s) plus the cursor; '
